@@ -5,6 +5,7 @@
 //        x - x, comparisons.
 //  arith/year_month, arith/year_month_day, arith/year_month_day_last, arith/year_month_weekday :
 //        +/- months (carry into the year) and +/- years, compound forms where tetl defines them.
+//  arith/year_month/allyears/* (thorough): year_month +/- months{-14..14}, +/- years{1} at every year.
 //  syntax : the operator/ spellings build the same objects.
 //
 // Only inputs whose result the standard specifies take part (result year inside [-32767, 32767],
@@ -106,7 +107,8 @@ void job_month(mc::Reporter& r)
     unsigned m   = 0;
     long long k  = 0;
     int op       = 0;
-    std::string subj;
+    std::string subjects[9];
+    for (int i = 0; i < 9; ++i) { subjects[i] = cat("month::", kUnitOps[i]); }
     auto cls = [&] {
         long long const s = (long long)m - 1 + eff_delta(op, k);
         std::string p     = huge_tag(k);
@@ -114,23 +116,29 @@ void job_month(mc::Reporter& r)
         return p + (s < 0 ? "wraps_below" : (s > 11 ? "wraps_above" : "general"));
     };
     auto kase = [&] { return cat("month{", m, "} ", kUnitOps[op], " months{", (op >= 5 ? 1 : k), "}"); };
-    mc::Trap t = mc::guarded([&] {
-        for (long long kk : deltas) {
-            k = kk;
+    // short guarded blocks (one per delta): the hang watchdog counts seconds without a new guard entry
+    auto guard = [&](auto&& block) {
+        mc::Trap const t = mc::guarded(block);
+        if (t != mc::Trap::none) { c.trapped(t, cls(), kase()); }
+    };
+    for (long long kk : deltas) {
+        k = kk;
+        guard([&] {
             for (m = 0; m <= 13; ++m) {
                 for (op = 0; op < 9; ++op) {
                     if (op >= 5 && k != 0) { continue; } // inc/dec do not depend on k: once
-                    subj      = cat("month::", kUnitOps[op]);
-                    c.subject = "month arithmetic";
+                    c.subject = subjects[op].c_str();
                     auto got  = unit_op(op, ec::month{m}, ec::months{int(k)}, [](auto const& x) { return f_month(x); });
                     auto want = unit_op(op, sc::month{m}, sc::months{k}, [](auto const& x) { return f_month(x); });
-                    c.check(subj.c_str(), got, want, cls, kase);
+                    c.check(c.subject, got, want, cls, kase);
                     long long const s = (long long)m - 1 + eff_delta(op, k);
                     if (s < 0 || s > 11) { r.nontrivial(mc::hash_mix(mc::hash_mix(m, std::uint64_t(k)), op)); }
                     r.outcome(got.hash());
                 }
             }
-        }
+        });
+    }
+    guard([&] {
         // month - month: specified for ok() operands
         for (m = 1; m <= 12; ++m) {
             for (unsigned m2 = 1; m2 <= 12; ++m2) {
@@ -150,10 +158,6 @@ void job_month(mc::Reporter& r)
             }
         }
     });
-    if (t != mc::Trap::none) {
-        c.subject = subj.c_str();
-        c.trapped(t, cls(), kase());
-    }
     r.sample(cat("month 0..13 x months{", deltas.size(), " deltas incl. +-(2^31-1)} x 9 ops; 144 differences"));
     r.count("evaluations", c.evals);
 }
@@ -166,29 +170,36 @@ void job_weekday(mc::Reporter& r)
     unsigned w  = 0;
     long long k = 0;
     int op      = 0;
-    std::string subj;
+    std::string subjects[9];
+    for (int i = 0; i < 9; ++i) { subjects[i] = cat("weekday::", kUnitOps[i]); }
     auto cls = [&] {
         long long const s = (long long)(w == 7 ? 0 : w) + eff_delta(op, k);
         return huge_tag(k) + (s < 0 ? "wraps_below" : (s > 6 ? "wraps_above" : "general"));
     };
     auto kase = [&] { return cat("weekday{", w, "} ", kUnitOps[op], " days{", (op >= 5 ? 1 : k), "}"); };
-    mc::Trap t = mc::guarded([&] {
-        for (long long kk : deltas) {
-            k = kk;
+    // short guarded blocks (one per delta): the hang watchdog counts seconds without a new guard entry
+    auto guard = [&](auto&& block) {
+        mc::Trap const t = mc::guarded(block);
+        if (t != mc::Trap::none) { c.trapped(t, cls(), kase()); }
+    };
+    for (long long kk : deltas) {
+        k = kk;
+        guard([&] {
             for (w = 0; w <= 7; ++w) {
                 for (op = 0; op < 9; ++op) {
                     if (op >= 5 && k != 0) { continue; }
-                    subj      = cat("weekday::", kUnitOps[op]);
-                    c.subject = "weekday arithmetic";
+                    c.subject = subjects[op].c_str();
                     auto got  = unit_op(op, ec::weekday{w}, ec::days{int(k)}, [](auto const& x) { return f_wd(x); });
                     auto want = unit_op(op, sc::weekday{w}, sc::days{k}, [](auto const& x) { return f_wd(x); });
-                    c.check(subj.c_str(), got, want, cls, kase);
+                    c.check(c.subject, got, want, cls, kase);
                     long long const s = (long long)(w == 7 ? 0 : w) + eff_delta(op, k);
                     if (s < 0 || s > 6) { r.nontrivial(mc::hash_mix(mc::hash_mix(w, std::uint64_t(k)), op)); }
                     r.outcome(got.hash());
                 }
             }
-        }
+        });
+    }
+    guard([&] {
         for (w = 0; w <= 7; ++w) {
             for (unsigned w2 = 0; w2 <= 7; ++w2) {
                 c.subject = "weekday::operator-(weekday,weekday)";
@@ -203,10 +214,6 @@ void job_weekday(mc::Reporter& r)
             }
         }
     });
-    if (t != mc::Trap::none) {
-        c.subject = subj.c_str();
-        c.trapped(t, cls(), kase());
-    }
     r.sample(cat("weekday 0..7 x days{", deltas.size(), " deltas incl. +-(2^31-1)} x 9 ops; 64 differences"));
     r.count("evaluations", c.evals);
 }
@@ -218,28 +225,35 @@ void job_day(mc::Reporter& r)
     unsigned d = 0;
     int k      = 0;
     int op     = 0;
-    std::string subj;
+    std::string subjects[9];
+    for (int i = 0; i < 9; ++i) { subjects[i] = cat("day::", kUnitOps[i]); }
     auto cls  = [&] { return std::string("general"); };
     auto kase = [&] { return cat("day{", d, "} ", kUnitOps[op], " days{", (op >= 5 ? 1 : k), "}"); };
     int const span = r.thorough() ? 254 : 40;
-    mc::Trap t     = mc::guarded([&] {
-        for (k = -span; k <= span; ++k) {
+    // short guarded blocks (one per delta): the hang watchdog counts seconds without a new guard entry
+    auto guard = [&](auto&& block) {
+        mc::Trap const t = mc::guarded(block);
+        if (t != mc::Trap::none) { c.trapped(t, cls(), kase()); }
+    };
+    for (k = -span; k <= span; ++k) {
+        guard([&] {
             for (d = 0; d <= 254; ++d) {
                 if (!r.thorough() && d > 60 && d < 200) { continue; }
                 for (op = 0; op < 9; ++op) {
                     if (op >= 5 && k != 0) { continue; }
                     long long const res = (long long)d + eff_delta(op, k);
                     if (res < 0 || res > 254) { continue; } // unspecified outside [0,255]; 255 is tested in c11_days
-                    subj      = cat("day::", kUnitOps[op]);
-                    c.subject = "day arithmetic";
+                    c.subject = subjects[op].c_str();
                     auto got  = unit_op(op, ec::day{d}, ec::days{k}, [](auto const& x) { return f_day(x); });
                     auto want = unit_op(op, sc::day{d}, sc::days{k}, [](auto const& x) { return f_day(x); });
-                    c.check(subj.c_str(), got, want, cls, kase);
+                    c.check(c.subject, got, want, cls, kase);
                     if (k != 0 || op >= 5) { r.nontrivial(mc::hash_mix(mc::hash_mix(d, std::uint64_t(k)), op)); }
                     r.outcome(got.hash());
                 }
             }
-        }
+        });
+    }
+    guard([&] {
         for (d = 0; d <= 40; ++d) {
             for (unsigned d2 = 0; d2 <= 40; ++d2) {
                 c.subject = "day::operator-(day,day)";
@@ -249,10 +263,6 @@ void job_day(mc::Reporter& r)
             }
         }
     });
-    if (t != mc::Trap::none) {
-        c.subject = subj.c_str();
-        c.trapped(t, cls(), kase());
-    }
     r.sample(cat("day 0..254 x days{-", span, "..", span, "} x 9 ops, results inside [0,254]"));
     r.count("evaluations", c.evals);
 }
@@ -285,23 +295,24 @@ void job_year(mc::Reporter& r)
     int y       = 0;
     long long k = 0;
     int op      = 0;
-    std::string subj;
+    std::string subjects[9];
+    for (int i = 0; i < 9; ++i) { subjects[i] = cat("year::", kUnitOps[i]); }
     auto cls  = [&] { return std::string(y < 0 ? "year_neg" : "general"); };
     auto kase = [&] { return cat("year{", y, "} ", kUnitOps[op], " years{", (op >= 5 ? 1 : k), "}"); };
-    mc::Trap t = mc::guarded([&] {
-        for (int yy : ys) {
-            y = yy;
+    for (int yy : ys) {
+        y = yy;
+        // one guarded block per year
+        mc::Trap const t = mc::guarded([&] {
             for (long long kk : ds) {
                 k = kk;
                 for (op = 0; op < 9; ++op) {
                     if (op >= 5 && k != 0) { continue; }
                     long long const res = (long long)y + eff_delta(op, k);
                     if (res < -32768 || res > 32767) { continue; } // not representable: outside the statement
-                    subj      = cat("year::", kUnitOps[op]);
-                    c.subject = "year arithmetic";
+                    c.subject = subjects[op].c_str();
                     auto got  = unit_op(op, ec::year{y}, ec::years{int(k)}, [](auto const& x) { return f_year(x); });
                     auto want = unit_op(op, sc::year{y}, sc::years{k}, [](auto const& x) { return f_year(x); });
-                    c.check(subj.c_str(), got, want, cls, kase);
+                    c.check(c.subject, got, want, cls, kase);
                     if (k != 0 || op >= 5) { r.nontrivial(mc::hash_mix(mc::hash_mix(std::uint64_t(y), std::uint64_t(k)), op)); }
                     r.outcome(got.hash());
                 }
@@ -322,11 +333,8 @@ void job_year(mc::Reporter& r)
                 c.subject = "year comparisons";
                 c.check(c.subject, cmp6(ec::year{y}, ec::year{y2}), cmp6(sc::year{y}, sc::year{y2}), cls, [&] { return cat("year{", y, "} <=> year{", y2, "}"); });
             }
-        }
-    });
-    if (t != mc::Trap::none) {
-        c.subject = subj.c_str();
-        c.trapped(t, cls(), kase());
+        });
+        if (t != mc::Trap::none) { c.trapped(t, cls(), kase()); }
     }
     r.sample(cat(ys.size(), " lattice years (centuries +-1, int16 edges) x ", ds.size(), " deltas x 9 ops, representable results; all pairs for - and comparisons"));
     r.count("evaluations", c.evals);
@@ -413,7 +421,7 @@ void comp_sweep(mc::Reporter& r, Ctx& c, char const* type, CompSpace const& sp, 
     unsigned m  = 0;
     long long k = 0;
     int op      = 0;
-    std::string subj;
+    std::uint64_t nontrivial = 0;
     auto cls = [&] {
         std::string p = leapday ? "leap_day+" : "";
         if (op < 5) {
@@ -423,10 +431,17 @@ void comp_sweep(mc::Reporter& r, Ctx& c, char const* type, CompSpace const& sp, 
         return p + "general";
     };
     auto kase = [&] { return cat(type, "{", y, ",", m, extra, "} ", kCompOps[op], " ", (op < 5 ? "months{" : "years{"), k, "}"); };
-    mc::Trap t = mc::guarded([&] {
-        for (int yy : sp.years) {
-            y = yy;
-            for (m = 1; m <= 12; ++m) {
+    std::string subjects[10];
+    for (int i = 0; i < 10; ++i) { subjects[i] = cat(type, "::", kCompOps[i]); }
+    for (int yy : sp.years) {
+        y = yy;
+        if (r.deadline_passed()) {
+            r.not_exhaustive("deadline");
+            break;
+        }
+        // one guard per (year, month): short blocks, so the hang watchdog only ever sees real hangs
+        for (m = 1; m <= 12; ++m) {
+            mc::Trap t = mc::guarded([&] {
                 for (op = 0; op < 10; ++op) {
                     if (!Compound && (op == 3 || op == 4 || op == 8 || op == 9)) { continue; }
                     for (long long kk : (op < 5 ? sp.dm : sp.dy)) {
@@ -434,25 +449,22 @@ void comp_sweep(mc::Reporter& r, Ctx& c, char const* type, CompSpace const& sp, 
                         long long const signedk = (op == 2 || op == 4 || op == 7 || op == 9) ? -k : k;
                         long long const ry       = (op < 5) ? (long long)y + floor_div((long long)m - 1 + signedk, 12) : (long long)y + signedk;
                         if (ry < -32767 || ry > 32767) { continue; } // result year must be representable and ok()
-                        subj      = cat(type, "::", kCompOps[op]);
-                        c.subject = "composite arithmetic";
+                        c.subject = subjects[op].c_str();
                         auto got  = comp_op<E, Compound>(op, mk(E{}, y, m), k, fields);
                         auto want = comp_op<S, Compound>(op, mk(S{}, y, m), k, fields);
-                        c.check(subj.c_str(), got, want, cls, kase);
+                        c.check(c.subject, got, want, cls, kase);
                         if (op < 5) {
                             long long const s = (long long)m - 1 + signedk;
-                            if (s < 0 || s > 11) { r.nontrivial(mc::hash_mix(mc::hash_mix(mc::hash_str(cat(type, extra)), mc::hash_mix(std::uint64_t(y), m)), mc::hash_mix(std::uint64_t(k), op))); }
+                            if (s < 0 || s > 11) { ++nontrivial; } // distinct by construction of the loops
                         }
                         r.outcome(got.hash());
                     }
                 }
-            }
+            });
+            if (t != mc::Trap::none) { c.trapped(t, cls(), kase()); }
         }
-    });
-    if (t != mc::Trap::none) {
-        c.subject = subj.c_str();
-        c.trapped(t, cls(), kase());
     }
+    r.count("distinct_nontrivial", nontrivial);
 }
 
 void job_year_month(mc::Reporter& r)
@@ -475,6 +487,24 @@ void job_year_month(mc::Reporter& r)
         }
     }
     r.sample(cat("year_month: ", sp.years.size(), " years x 12 months x ", sp.dm.size(), " month deltas / ", sp.dy.size(), " year deltas x 10 ops"));
+    r.count("evaluations", c.evals);
+}
+
+/// thorough only: the year carry of year_month +/- months at EVERY year (the lattice jobs above use 9-23 years)
+void job_year_month_allyears(mc::Reporter& r, int y0, int y1 /*exclusive*/)
+{
+    Ctx c(r);
+    CompSpace sp;
+    for (int y = y0; y < y1; ++y) { sp.years.push_back(y); }
+    for (int k = 0; k <= 14; ++k) {
+        sp.dm.push_back(k);
+        if (k) { sp.dm.push_back(-k); }
+    }
+    sp.dy = {1, -1};
+    comp_sweep<true>(
+        r, c, "year_month", sp, "", [](auto L, int y, unsigned m) { return typename decltype(L)::year_month{typename decltype(L)::year{y}, typename decltype(L)::month{m}}; },
+        [](auto const& x) { return f_ym(x); }, false);
+    r.sample(cat("year_month: every year in [", y0, ",", y1, ") x 12 months x month deltas [-14,14] / year deltas +-1 x 10 ops"));
     r.count("evaluations", c.evals);
 }
 
@@ -657,5 +687,10 @@ int main(int argc, char** argv)
     m.job("arith/year_month_day_last", both, job_ymdl);
     m.job("arith/year_month_weekday", both, job_ymw);
     m.job("syntax", both, job_syntax);
+    for (int k = 0; k < 8; ++k) {
+        int const y0 = -32767 + k * 8192;
+        int const y1 = std::min(y0 + 8192, 32768);
+        m.job(cat("arith/year_month/allyears/", y0, "..", y1 - 1), {"thorough"}, [=](mc::Reporter& r) { job_year_month_allyears(r, y0, y1); });
+    }
     return m.run();
 }
